@@ -30,7 +30,11 @@ CLAIM = {
             "handed to backward are f, y-f and grad_y f. Accuracy of iterative backward solves is not decided.",
     "note": "Trusted: contracts of jac (C17) and solve (C01), stub autograd, user function differentiable and pure in "
             "(y, params, object tensors), real inner product, floats as reals, z3. The separator round trip is "
-            "exhaustive over all tensor/non-tensor/no-grad patterns up to length 4 (bounded in the number of parameters).",
+            "exhaustive over all tensor/non-tensor/no-grad patterns up to length 4 (bounded in the number of parameters); the "
+            "separation itself (TensorNonTensorSeparator.__init__: which parameters go to which list, at which positions, in which "
+            "order, the counts and the all-tensors flag) is proved for EVERY number of parameters from verification conditions "
+            "generated from the function's AST (unit separator_any_length; the counting function used by the invariant is a "
+            "recursive definition).",
     "design_ref": "DESIGN.md section 6 C04",
 }
 
@@ -457,10 +461,81 @@ def unit_minimize_reduction():
     return kit.run_unit("minimize_reduction", run)
 
 
+def unit_separator_any_length():
+    """TensorNonTensorSeparator.__init__ for EVERY number of parameters (verification conditions from the function's own AST,
+    pydv.intvc): the loop is cut at an invariant stated with the counting function rank(j) = number of positions before j
+    that are differentiable tensors (tensors when varonly is off)"""
+    from pydv import intvc
+    from pydv.intvc import I, B
+    from props.C09 import _record
+    rf, misc = _mods()
+    Sep = misc.TensorNonTensorSeparator
+
+    def run():
+        c = ctx()
+        seq = intvc.InputSeq("params")
+        varonly = z3.Bool("varonly")
+        isT = z3.Function("isinstance[torch.Tensor]<params>", I, B)
+        rg = z3.Function("requires_grad<params>", I, B)
+        rank = z3.Function("rank", I, I)
+        crit = lambda j: z3.And(isT(j), z3.Or(z3.And(varonly, rg(j)), z3.Not(varonly)))
+        j = z3.Int("j")
+        # definition of the counting function (instantiated where it is used: the generic iteration and the ends)
+        def rank_def(at):
+            return rank(at + 1) == rank(at) + z3.If(crit(at), 1, 0)
+
+        def inv(S, i, n):
+            TI, TP, NI, NP = S["self.tensor_idxs"], S["self.tensor_params"], S["self.nontensor_idxs"], S["self.nontensor_params"]
+            return [
+                ("count_is_between_zero_and_the_position", z3.ForAll([j], z3.Implies(z3.And(0 <= j, j <= i), z3.And(0 <= rank(j), rank(j) <= j)))),
+                ("lengths", z3.And(TI.len == rank(i), TP.len == rank(i), NI.len == i - rank(i), NP.len == i - rank(i))),
+                ("tensors_in_order_of_appearance",
+                 z3.ForAll([j], z3.Implies(z3.And(0 <= j, j < i, crit(j)),
+                                           z3.And(rank(j) < rank(i), z3.Select(TI.arr, rank(j)) == j, z3.Select(TP.arr, rank(j)) == j)))),
+                ("others_in_order_of_appearance",
+                 z3.ForAll([j], z3.Implies(z3.And(0 <= j, j < i, z3.Not(crit(j))),
+                                           z3.And(j - rank(j) < i - rank(i), z3.Select(NI.arr, j - rank(j)) == j,
+                                                  z3.Select(NP.arr, j - rank(j)) == j)))),
+            ]
+
+        def inv_named(S, i, n):
+            # the counting function is defined, not proved: its axioms are hypotheses of every step (added through the first clause,
+            # which is trivially re-established from the definition at i+1)
+            return inv(S, i, n)
+
+        def post(S, n):
+            TI, TP, NI, NP = S["self.tensor_idxs"], S["self.tensor_params"], S["self.nontensor_idxs"], S["self.nontensor_params"]
+            return [
+                ("nparams_is_the_number_of_parameters", S["self.nparams"] == n),
+                ("tensor_params_are_the_differentiable_tensors_in_their_order",
+                 z3.And(TP.len == rank(n), TI.len == rank(n),
+                        z3.ForAll([j], z3.Implies(z3.And(0 <= j, j < n, crit(j)),
+                                                  z3.And(0 <= rank(j), rank(j) < rank(n), z3.Select(TP.arr, rank(j)) == j,
+                                                         z3.Select(TI.arr, rank(j)) == j))))),
+                ("everything_else_is_kept_with_its_position",
+                 z3.And(NP.len == n - rank(n), NI.len == n - rank(n),
+                        z3.ForAll([j], z3.Implies(z3.And(0 <= j, j < n, z3.Not(crit(j))),
+                                                  z3.And(0 <= j - rank(j), j - rank(j) < n - rank(n), z3.Select(NP.arr, j - rank(j)) == j,
+                                                         z3.Select(NI.arr, j - rank(j)) == j))))),
+                ("every_parameter_is_in_exactly_one_of_the_two_lists", TP.len + NP.len == n),
+                ("alltensors_flag", S["self.alltensors"] == (rank(n) == n)),
+            ]
+
+        def bind(interp):
+            return {"params": seq, "varonly": varonly}
+        # the counting function is DEFINED by recursion (a conservative definition: such a function exists), not proved
+        defs = [rank(0) == 0, z3.ForAll([j], z3.Implies(j >= 0, rank(j + 1) == rank(j) + z3.If(crit(j), 1, 0)))]
+        vc = intvc.LoopVC(Sep.__init__, bind, inv_named, post, name="TensorNonTensorSeparator.__init__", definitions=defs)
+        _record(c, vc.run())
+        c.check("TensorNonTensorSeparator.__init__.loop_body_paths_covered", vc.paths == 2, detail="%d paths" % vc.paths)
+        c.prove("canary", z3.BoolVal(False), kind="canary")
+    return kit.run_unit("separator_any_length", run)
+
+
 def units(tier):
     pats = [("T", 1), ("T", 0), ("TT", 1), ("XT", 1), ("NTX", 2), ("TXNT", 2), ("XNT", 3), ("TNT", 0), ("", 0), ("X", 1)]
     us = [("backward[%s|%d]" % (p, k), (lambda p=p, k=k: unit_backward((p, k)))) for p, k in pats]
     us.append(("backward[TT|1,same_tensor_twice]", lambda: unit_backward(("TT", 1, True))))
-    us += [("forward_frame", unit_forward_frame), ("separator", unit_separator),
+    us += [("forward_frame", unit_forward_frame), ("separator", unit_separator), ("separator_any_length", unit_separator_any_length),
            ("minimize_reduction", unit_minimize_reduction)]
     return us
